@@ -172,6 +172,10 @@ func runC31(p *core.Prog, r *core.Report) {
 	if !found {
 		r.Fatalf("C31.R2: no VerifyAndStoreObjectLocally adapter found in cmd/neofs-node")
 	}
+	// ---------------- R5 'is this node in the container' means: at the current epoch
+	r5 := r.Rule("C31.R5", "the receiver-side membership question is answered from the current epoch only: the node's adapter for ForEachContainerNodePublicKey delegates to the placement service's current-epoch iteration with its own arguments, that iteration asks for no previous epoch, and forEachContainerNode applies the policy to a second epoch only when asked to", 3)
+	receiverMembershipIsCurrentEpoch(p, r, r5)
+	r.Explain += " (R5) the server-in-container test of Replicate iterates the nodes of the CURRENT epoch: cmd/neofs-node's adapter method ForEachContainerNodePublicKey calls the placement service's method of the same name (not the two-epoch one) with its own container id and callback; that method passes 'no previous epoch' to forEachContainerNode, which applies the policy at a second epoch only on the path where the flag is set."
 	// ---------------- R4 the node sets of an epoch come from that epoch's network map
 	r4 := r.Rule("C31.R4", "the per-epoch network map cache answers a request for epoch N only with a map whose Epoch() == N, or with what was just read from the chain without error: a stale slot (N-10, N-20, ...) is never served as epoch N", 1)
 	if gfn := p.Func("(*cmd/neofs-node.lruNetCache).get"); gfn == nil {
@@ -195,5 +199,69 @@ func runC31(p *core.Prog, r *core.Report) {
 		}
 		core.CheckSuccessFn(p, r4, gfn, core.SuccessRule{ResultIdx: -1, MinReturns: 2, Guards: gs,
 			Derived: []core.Derived{{Name: "map-of-the-requested-epoch", Alts: [][]string{{"slot-holds-the-requested-epoch"}, {"read-from-the-chain-now"}}}}, Need: []string{"map-of-the-requested-epoch"}})
+	}
+}
+
+func receiverMembershipIsCurrentEpoch(p *core.Prog, r *core.Report, h *core.RuleH) {
+	const plT = "(*pkg/services/object/placement.Service)"
+	// (a) adapter
+	found := false
+	for _, f := range p.FuncsIn("cmd/neofs-node") {
+		if f.Name() != "ForEachContainerNodePublicKey" || f.Signature.Recv() == nil || f.Blocks == nil {
+			continue
+		}
+		found = true
+		cur := core.CallSites([]*ssa.Function{f}, func(s core.Site) bool { return s.Name == plT+".ForEachContainerNodePublicKey" })
+		two := core.CallSites([]*ssa.Function{f}, func(s core.Site) bool { return strings.HasSuffix(s.Name, ".ForEachContainerNodePublicKeyInLastTwoEpochs") })
+		ok := len(cur) == 1 && len(two) == 0
+		if ok {
+			a := cur[0].Call.Common().Args
+			ok = len(a) == 3 && core.ParamIndex(f, a[1]) == 1 && core.ParamIndex(f, a[2]) == 2
+		}
+		h.Check(ok, core.FuncName(f)+"#delegation", p.Pos(f.Pos()), "delegates to the current-epoch iteration with its own arguments",
+			"the node's current-epoch membership iteration does not delegate to placement.Service.ForEachContainerNodePublicKey(id, f): a node that left the container (or whose current policy cannot be applied) still passes Replicate's server-in-container test and stores the replica")
+	}
+	if !found {
+		r.Fatalf("C31.R5: no ForEachContainerNodePublicKey adapter found in cmd/neofs-node")
+	}
+	// (b) the service method asks for the current epoch only
+	if cf := p.Func(plT + ".ForEachContainerNodePublicKey"); cf == nil {
+		r.Fatalf("C31.R5: placement.Service.ForEachContainerNodePublicKey not found")
+	} else {
+		cs := core.CallSites([]*ssa.Function{cf}, func(s core.Site) bool { return s.Name == plT+".forEachContainerNode" })
+		ok := len(cs) == 1
+		if ok {
+			a := cs[0].Call.Common().Args
+			c, isC := a[2].(*ssa.Const)
+			bv, isB := false, false
+			if isC {
+				bv, isB = constBool(c)
+			}
+			ok = len(a) == 4 && core.ParamIndex(cf, a[1]) == 1 && isB && !bv
+		}
+		h.Check(ok, core.FuncName(cf)+"#current-only", p.Pos(cf.Pos()), "asks forEachContainerNode for the current epoch only", "placement.Service.ForEachContainerNodePublicKey no longer asks for the current epoch only")
+	}
+	// (c) a second epoch only on request
+	if ff := p.Func(plT + ".forEachContainerNode"); ff == nil {
+		r.Fatalf("C31.R5: forEachContainerNode not found")
+	} else {
+		first := true
+		g := core.Guard{Name: "previous-epoch-requested", Comps: []core.Comp{{Result: -1, Kind: core.IsFalse}}, Value: func(f *ssa.Function, v ssa.Value) bool {
+			u, ok := v.(*ssa.UnOp)
+			return ok && u.Op == token.NOT && core.ParamIndex(f, u.X) == 2
+		}}
+		g2 := core.Guard{Name: "previous-epoch-requested(direct)", Comps: []core.Comp{{Result: -1, Kind: core.IsTrue}}, Value: func(f *ssa.Function, v ssa.Value) bool {
+			return core.ParamIndex(f, v) == 2
+		}}
+		core.CheckEffectsFn(p, h, ff, core.EffectRule{Min: 1, Guards: []core.Guard{g, g2},
+			Derived: []core.Derived{{Name: "asked-for-two-epochs", Alts: [][]string{{g.Name}, {g2.Name}}}},
+			Effect: func(_ *core.Prog, in ssa.Instruction) (string, bool) {
+				c, ok := in.(ssa.CallInstruction)
+				if !ok || !strings.HasSuffix(core.CalleeName(c), ".applyAtEpoch") {
+					return "", false
+				}
+				_ = first
+				return "policy-at-another-epoch", true
+			}, Need: func(string) []string { return []string{"asked-for-two-epochs"} }})
 	}
 }
